@@ -27,6 +27,8 @@ def replay(d):
         r = ob.guarded(c0910_concrete.check_receiver_groups, seeds=(0,))
     if not r['reproduced']:
         r = ob.guarded(c0910_concrete.check_magnetic, seeds=(0,))
+    if not r['reproduced']:
+        r = ob.guarded(c0910_concrete.check_magnetic_transpose, seeds=(0,))
     return r
 
 
@@ -561,7 +563,213 @@ def task_concrete():
     r = ob.guarded(c0910_concrete.check_magnetic, seeds=(seed,))
     col.concrete('magnetic_field_is_discrete_Faraday__grid_not_modified__repeatable', r['reproduced'] is False, r,
                  bounded='sequence of 6 get_magnetic_field calls on one grid with and without mu_r', cases=r.get('cases', 0))
+    r = ob.guarded(c0910_concrete.check_magnetic_transpose, seeds=(seed,))
+    col.concrete('magnetic_receiver_equals_inner_product_with_the_unit_magnetic_point_source_vector__frequency_and_Laplace_domain', r['reproduced'] is False, r,
+                 bounded='stretched 5x6x4 grid; frequencies 1.3, 0.05 Hz and Laplace -2.0, -0.4; 3 conductivity models; 4 positions / orientations each; '
+                         'against _point_vector_magnetic and against get_source_field(TxMagneticPoint) / (strength * -s mu0); linear interpolation', cases=r.get('cases', 0))
     return col.pack()
+
+
+# ------------------------------------------------------------------ magnetic point source: -(C^T P^T) / (-s mu0)
+class Lin(cx.Ext):
+    """a matrix / vector as a formal linear combination of products of named atoms (free bilinear algebra, products do NOT commute):
+    terms: {atom: coefficient}, coefficient a z3 real.  Transposition, @, + - unary minus, scaling and division by scalars are exact in this
+    algebra; toarray / ravel / tocsr / todense / A1 change the container, not the entries (assumed, see ASSUMPTIONS).  The object is mutable the
+    way an ndarray is (x[:] = y copies the entries, x /= s scales in place)."""
+
+    def __init__(self, terms=None):
+        self.terms = dict(terms or {})
+
+    @staticmethod
+    def atom(name):
+        return Lin({name: z3.RealVal(1)})
+
+    @staticmethod
+    def t_atom(a):
+        if isinstance(a, tuple) and a[0] == 'T':
+            return a[1]
+        if isinstance(a, tuple) and a[0] == 'MM':
+            return ('MM', Lin.t_atom(a[2]), Lin.t_atom(a[1]))
+        return ('T', a)
+
+    def scaled(self, c):
+        return Lin({a: z3.simplify(cx.R(v) * cx.R(c)) for a, v in self.terms.items()})
+
+    def plus(self, other, sign=1):
+        out = dict(self.terms)
+        for a, v in other.terms.items():
+            out[a] = z3.simplify(out[a] + sign * v) if a in out else z3.simplify(sign * v)
+        return Lin(out)
+
+    @staticmethod
+    def scalar(v):
+        return (isinstance(v, (int, float)) and not isinstance(v, bool)) or (cx.is_sym(v) and not z3.is_bool(v))
+
+    def cx_getattr(self, it, attr):
+        if attr == 'T':
+            return Lin({Lin.t_atom(a): v for a, v in self.terms.items()})
+        if attr in ('toarray', 'ravel', 'tocsr', 'tocsc', 'todense', 'flatten', 'copy', 'transpose'):
+            return cx.LibFn('lin.' + attr, bound=self)
+        if attr == 'A1':
+            return Lin(self.terms)
+        return NotImplemented
+
+    def cx_binop(self, it, op, other, reflected):
+        import ast
+        if isinstance(op, ast.Mult) and Lin.scalar(other):
+            return self.scaled(other)
+        if isinstance(op, ast.Div) and Lin.scalar(other) and not reflected:
+            return self.scaled(1 / cx.R(other))
+        if isinstance(op, (ast.Add, ast.Sub)) and isinstance(other, Lin):
+            if reflected:
+                return other.plus(self, 1 if isinstance(op, ast.Add) else -1)
+            return self.plus(other, 1 if isinstance(op, ast.Add) else -1)
+        if isinstance(op, ast.MatMult) and isinstance(other, Lin):
+            a, b = (other, self) if reflected else (self, other)
+            out = Lin()
+            for x, cxv in a.terms.items():
+                for y, cyv in b.terms.items():
+                    out = out.plus(Lin({('MM', x, y): z3.simplify(cxv * cyv)}))
+            return out
+        return NotImplemented
+
+    def cx_unary(self, it, op):
+        import ast
+        if isinstance(op, ast.USub):
+            return self.scaled(-1)
+        if isinstance(op, ast.UAdd):
+            return Lin(self.terms)
+        return NotImplemented
+
+    def cx_inplace(self, it, op, other):
+        r = self.cx_binop(it, op, other, False)
+        if r is NotImplemented:
+            return NotImplemented
+        self.terms = r.terms
+        return self
+
+    def cx_setitem(self, it, key, value):
+        if key == slice(None, None, None) and isinstance(value, Lin):
+            if value is not self:
+                self.terms = dict(value.terms)
+            return None
+        return NotImplemented
+
+    def __repr__(self):
+        return f'<Lin {self.terms}>'
+
+
+def _lin_method(it, f, args, kw, node):
+    name = f.name.split('.', 1)[1]
+    if name == 'transpose':
+        return f.bound.cx_getattr(it, 'T')
+    return Lin(f.bound.terms)
+
+
+def task_field_smu0():
+    """fields.Field.sval / smu0 in the Laplace domain (frequency < 0): s = -frequency, s mu0 = -frequency * mu_0 -- the value both the receiver side
+    (get_magnetic_field) and the source side (_point_vector_magnetic, get_source_field) divide / multiply by; None without frequency.
+    (frequency domain: s = 2 pi i f is complex and outside the arithmetic of the prover -- bounded check only.)"""
+    col = ob.Collector(PROP, 'fields.Field.smu0')
+    col.function('fields.Field.smu0')
+    col.function('fields.Field.sval')
+    FREQ, MU0 = z3.Real('frequency'), z3.Real('MU_0')
+    out = {}
+    for dom in ('laplace', 'none'):
+        def mk(ctx, dom=dom):
+            f = cx.Obj('Field', dict(_frequency=(FREQ if dom == 'laplace' else None), __strict__=True), mod='fields')
+            return [], {}, dict(__self__=f, f=f)
+        out[dom] = cx.run_function('fields.Field.smu0', mk, pc0=[FREQ < 0, MU0 > 0], summaries={}, opts={})
+
+    def val(v):
+        if isinstance(v, cx.NDArr):
+            return v.store.val
+        return v if cx.is_sym(v) else None
+    clause(col, 'laplace_domain_s_mu0_is_minus_frequency_times_mu_0', out['laplace'],
+           lambda r: r.outcome == 'return' and val(r.value) is not None and val(r.value) == -FREQ * MU0, [FREQ < 0, MU0 > 0])
+    clause(col, 'no_frequency_no_s_mu0', out['none'], lambda r: r.outcome == 'return' and r.value is None)
+    from .cxutil import canary
+    canary(col, 'canary/laplace_domain_s_is_the_negative_frequency_itself', out['laplace'], lambda r: val(r.value) == FREQ * MU0, [FREQ < 0, MU0 > 0])
+    return col.pack()
+
+
+def task_point_vector_magnetic(domain):
+    """fields._point_vector_magnetic(grid, coordinates, frequency), the source side of a magnetic point receiver: the vector is
+    -(C^T P^T) with C = grid.edge_curl, P = sum_d rotation_d(azimuth, elevation) * grid.get_interpolation_matrix((x, y, z), 'faces_d'), divided by
+    -s mu0 of a field of the given frequency (Field.smu0: s = -f in the Laplace domain) -- the factor 1/(s mu0) get_magnetic_field applies on the
+    receiver side (zeta = V / (mu_r s mu0), see task_get_magnetic_field); no factor for frequency=None.  domain: 'laplace' | 'frequency' | 'none'."""
+    col = ob.Collector(PROP, f'fields._point_vector_magnetic/{domain}')
+    col.default_replay = lambda d: ob.guarded(__import__('contracts.c0910_concrete', fromlist=['x']).check_magnetic_transpose, seeds=(0,))
+    col.function('fields._point_vector_magnetic')
+    X, Y, Z, AZ, EL = z3.Reals('x y z azimuth elevation')
+    ROT = z3.Reals('rot_x rot_y rot_z')
+    FREQ, SMU0, MU0 = z3.Real('frequency'), z3.Real('smu0'), z3.Real('MU_0')
+    pre = [MU0 > 0, SMU0 != 0] + ([FREQ < 0, SMU0 == -FREQ * MU0] if domain == 'laplace' else [FREQ > 0] if domain == 'frequency' else [])
+
+    def mk(ctx):
+        log = []
+
+        def rotation(it, args, kw, node):
+            log.append(('rotation', list(args), dict(kw)))
+            return cx.Vec(list(ROT))
+
+        def gim(it, f, args, kw, node):
+            loc, typ = (list(args) + [kw.get('location_type')])[:2]
+            ok = isinstance(loc, (list, tuple)) and len(loc) == 3 and all(cx.is_sym(a) and a.eq(b) for a, b in zip(loc, (X, Y, Z)))
+            log.append(('interpolation_matrix', typ, ok))
+            return Lin.atom(('P', typ if ok else f'{typ}@other-location#{len(log)}'))
+
+        def field(it, args, kw, node):
+            from .c0910 import bind_call
+            b = bind_call('fields.Field', list(args), dict(kw))
+            data = b.get('data')
+            fr = b.get('frequency')
+            f = cx.Obj('Field', dict(grid=b.get('grid'), _frequency=fr, frequency=fr, smu0=(SMU0 if fr is not None else None),
+                                     _field=Lin(data.terms) if isinstance(data, Lin) else Lin(), __bound__=b), mod='fields')
+            log.append(('Field', f))
+            return f
+        ctx.summaries.update({'electrodes.rotation': rotation, 'fields.Field': field})
+        pl = ctx.opts.setdefault('prelude', {})
+        pl['grid.get_interpolation_matrix'] = gim
+        for n in ('toarray', 'ravel', 'tocsr', 'tocsc', 'todense', 'flatten', 'copy', 'transpose'):
+            pl['lin.' + n] = _lin_method
+        grid = cx.Obj('TensorMesh', dict(edge_curl=Lin.atom('C'), get_interpolation_matrix=cx.LibFn('grid.get_interpolation_matrix')))
+        fr = None if domain == 'none' else FREQ
+        return [grid, (X, Y, Z, AZ, EL), fr], {}, dict(grid=grid, freq=fr, log=log)
+    res = cx.run_function('fields._point_vector_magnetic', mk, pc0=pre, summaries={}, opts={})
+    clause(col, 'returns_normally', res, lambda r: r.outcome == 'return', pre)
+
+    def vector(r):
+        from .cxutil import UNRECOGNISED
+        if r.outcome != 'return':
+            return None
+        v = r.value
+        if not isinstance(v, cx.Obj) or not isinstance(v.fields.get('_field'), Lin):
+            return UNRECOGNISED('what is returned is not a field holding a linear combination of curl / interpolation products')
+        rot = [x for x in r.state['log'] if x[0] == 'rotation']
+        if not rot or any(len(x[1]) != 2 or x[2] or not (cx.is_sym(x[1][0]) and x[1][0].eq(AZ) and cx.is_sym(x[1][1]) and x[1][1].eq(EL)) for x in rot):
+            return False
+        if v.fields['grid'] is not r.state['grid']:
+            return False
+        fr = v.fields['_frequency']
+        if (fr is None) != (r.state['freq'] is None) or (fr is not None and not (fr is FREQ or (cx.is_sym(fr) and fr.eq(FREQ)))):
+            return False
+        terms = dict(v.fields['_field'].terms)
+        goal = []
+        for d, rd in zip('xyz', ROT):
+            c = terms.pop(('MM', ('T', 'C'), ('T', ('P', 'faces_' + d))), z3.RealVal(0))
+            goal.append(c == (-rd / (-SMU0) if r.state['freq'] is not None else -rd))
+        goal += [c == 0 for c in terms.values()]
+        return z3.And(*goal)
+    main = clause(col, 'vector_is_minus_curlT_interpolationT_of_the_rotated_face_interpolation_at_the_position__divided_by_minus_s_mu0_of_the_given_frequency',
+                  res, vector, pre, sample=True)
+    from .cxutil import canary
+    if domain != 'none' and main.get('status') == 'proved':
+        # (a deliberately wrong claim is a test of the prover only where the right claim holds: on code that divides by +s mu0 it is simply true)
+        canary(col, 'canary/vector_is_divided_by_plus_s_mu0', res,
+               lambda r: z3.And(*[r.value.fields['_field'].terms.get(('MM', ('T', 'C'), ('T', ('P', 'faces_' + d))), z3.RealVal(0)) == -rd / SMU0 for d, rd in zip('xyz', ROT)]), pre)
+    return col.pack()
+
 
 
 def tasks(tier):
@@ -569,6 +777,8 @@ def tasks(tier):
             ('contracts.c0910', 'task_rotation', dict(prop='C09')),
             ('contracts.c09', 'task_get_magnetic_field', {}), ('contracts.c09', 'task_get_receiver', {}), ('contracts.c09', 'task_get_receiver_many', {}),
             ('contracts.c09', 'task_point_vector', {}),
+            ('contracts.c09', 'task_point_vector_magnetic', dict(domain='laplace')), ('contracts.c09', 'task_point_vector_magnetic', dict(domain='frequency')),
+            ('contracts.c09', 'task_point_vector_magnetic', dict(domain='none')), ('contracts.c09', 'task_field_smu0', {}),
             ('contracts.c09', 'task_concrete', {})]
 
 
@@ -578,6 +788,8 @@ LEVEL = ('Proof over the real source: point_source computes the product of 1-D h
 ASSUMPTIONS = ['RGI: maps.interpolate(method="linear") (SciPy RegularGridInterpolator) returns the sum of hat weights times values and NaN outside (bounded concrete check only)',
                'np.where(c)[0][0] is the first index at which c holds (dependency contract)',
                'lemma P5 (reciprocity from symmetry of A and r = s^T) is a paper step over the contracts of C02 and C09',
-               'magnetic point source (_point_vector_magnetic, discretize) and cubic interpolation are not covered',
+               'magnetic point source: the formula -(C^T P^T) / (-s mu0) of _point_vector_magnetic is proved in a free (non-commutative) bilinear algebra of named matrices; that discretize edge_curl / '
+               'get_interpolation_matrix(faces_d) are the transposes of the curl stencil of _edge_curl_factor and of the linear face interpolation of get_receiver is an assumed dependency contract '
+               '(bounded concrete check check_magnetic_transpose); toarray / ravel / tocsr keep the entries; frequency-domain s = 2 pi i f is outside the arithmetic of the prover; cubic interpolation is not covered',
                'several receivers in one call: arrays are abstracted by the value of a generic receiver (views that permute receivers are not distinguished); '
                'receivers given as a list of Rx* instances are covered by the bounded concrete check only']
